@@ -275,7 +275,10 @@ class Source:
             nth = 0
             mm = re.match(r'^(.*)#(\d+)$', seg)
             if mm: seg, nth = mm.group(1).strip(), int(mm.group(2))
-            kind, _, rest = seg.partition(' ')
+            if seg.startswith('impl<'):
+                kind, rest = 'impl', seg[4:]
+            else:
+                kind, _, rest = seg.partition(' ')
             rest = rest.strip()
             if kind == 'impl':
                 it = self.find('impl', header='impl ' + rest if not rest.startswith('<') else 'impl' + rest, region=region, nth=nth)
